@@ -182,6 +182,7 @@ def run(prop, tier, seed, replay_path=None):
     n_viol = 0
     seen = set()
     rdir = os.path.join(cf.out_dir("replays"), "C02")
+    shutil.rmtree(rdir, ignore_errors=True)
     for v in violations:
         sig = json.dumps(v["calls"][:v["step"]])
         if sig in seen:
